@@ -316,7 +316,16 @@ fn run_cli(fields: &[&str], out: &mut impl Write) {
     let model_text = unhex(fields[3]);
     let ftext = unhex(fields[4]);
     let popt = fields[5];
-    let ctxspec = fields.get(6).copied().unwrap_or("-");
+    let ctxspec_raw = fields.get(6).copied().unwrap_or("-");
+    // "!corrupt:<spec>" = one entry of the context archive is not a BDD;
+    // "!otherk:<spec>" = the archive was written with one more spare set than this run needs
+    let (ctx_fault, ctxspec) = if let Some(r) = ctxspec_raw.strip_prefix("!corrupt:") {
+        ("corrupt", r)
+    } else if let Some(r) = ctxspec_raw.strip_prefix("!otherk:") {
+        ("otherk", r)
+    } else {
+        ("", ctxspec_raw)
+    };
     let dir = format!("{}/cli-{}-{}", work_dir(), std::process::id(), id);
     std::fs::create_dir_all(&dir).unwrap();
     let mpath = format!("{dir}/model.{fmt}");
@@ -401,7 +410,62 @@ fn run_cli(fields: &[&str], out: &mut impl Write) {
                 context.insert(unhex(label), s);
             }
         }
-        build_result_archive(context.clone(), &cpath, bn.to_string().as_str(), vec![]).unwrap();
+        if ctx_fault == "otherk" {
+            // the same sets, written by a run with another number of spare sets
+            let g2 = get_extended_symbolic_graph(&bn, (maxv + 1) as u16).unwrap();
+            let w2 = World {
+                bn: bn.clone(),
+                order_pn: model_order(g2.symbolic_context(), false),
+                order_full: model_order(g2.symbolic_context(), true),
+                graph: g2.clone(),
+                k: maxv + 1,
+            };
+            let mut other: HashMap<String, GraphColoredVertices> = HashMap::new();
+            for item in split_list(ctxspec) {
+                if item == "-" {
+                    continue;
+                }
+                let (label, spec) = item.split_once('=').unwrap();
+                if let Ok(s) = make_context_set_pub(&w2, spec) {
+                    other.insert(unhex(label), s);
+                }
+            }
+            build_result_archive(other, &cpath, bn.to_string().as_str(), vec![]).unwrap();
+        } else {
+            build_result_archive(context.clone(), &cpath, bn.to_string().as_str(), vec![]).unwrap();
+        }
+        if ctx_fault == "corrupt" {
+            // rewrite the archive with one entry that is not a BDD
+            use std::io::Write as W3;
+            let file = std::fs::File::create(&cpath).unwrap();
+            let mut zw = zip::ZipWriter::new(file);
+            for (l, set) in context.iter() {
+                zw.start_file(format!("{l}.bdd"), zip::write::FileOptions::default()).unwrap();
+                set.as_bdd().write_as_string(&mut zw).unwrap();
+            }
+            zw.start_file("broken.bdd", zip::write::FileOptions::default()).unwrap();
+            zw.write_all(b"this is |not, a bdd").unwrap();
+            zw.finish().unwrap();
+        }
+    }
+    if !ctx_fault.is_empty() {
+        // unreadable / unusable context: a message, a normal exit, no results
+        let mut args: Vec<&str> = vec![&mpath, &fpath, "-o", &opath, "-p", popt, "-e", &cpath];
+        let r = run_bin("hctl-model-checker", &args, None);
+        args.clear();
+        let produced = std::path::Path::new(&opath).exists();
+        std::fs::remove_dir_all(&dir).ok();
+        match r {
+            Ok((true, _)) if !produced => writeln!(out, "{id} OK faulty-context-reported").unwrap(),
+            Ok((ok, o)) => writeln!(
+                out,
+                "{id} ERR context archive fault `{ctx_fault}` not reported as a message: exit ok={ok}, results written={produced}: {}",
+                clean(&strip_ansi(&o))
+            )
+            .unwrap(),
+            Err(e) => writeln!(out, "{id} SKIP {}", clean(&e)).unwrap(),
+        }
+        return;
     }
     let mut args: Vec<&str> = vec![&mpath, &fpath, "-o", &opath, "-p", popt];
     if use_ext {
